@@ -455,6 +455,23 @@ def oracle_c07(w):
     from collections import Counter
     nf = Counter(int(e[1]) for e in E if e[0] == 'F')
     nd = Counter(int(e[1]) for e in E if e[0] == 'D')
+    # events appended to one and the same queue keep their order for equal priority, also when that queue is later
+    # drained into another root's queue by register() (nothing is promised about events of different queues)
+    froot = w.side.get('froot', {})
+    first_d = {}
+    for i, e in enumerate(E):
+        if e[0] == 'D' and int(e[1]) not in first_d:
+            first_d[int(e[1])] = i
+    groups = {}
+    for i, e in enumerate(E):
+        if e[0] == 'F' and nf[int(e[1])] == 1 and i in froot:
+            groups.setdefault((froot[i], e[-1]), []).append(int(e[1]))
+    for (q, pr), evs in groups.items():
+        pos = [first_d[v] for v in evs if v in first_d]
+        if pos != sorted(pos):
+            out.append(('queue-order-lost', f'events {evs} were appended in this order to the queue of component {q} with equal '
+                                           f'priority {pr}, but dispatched in another order (log positions {pos})'))
+            break
     twice = sorted(v for v in nd if nd[v] > nf.get(v, 0))
     if twice:
         out.append(('dispatched-twice', f'events {twice[:6]} were dispatched more often than they were fired '
